@@ -49,8 +49,21 @@ def gen_case(r):
         relay[i] = amc[i] and r.random() < 0.3
         if relay[i]:
             ops.append(("multicast_relay=", True))
+    # unicast traffic before the multicasts (acknowledged types to non-neighbours leave the radio through
+    # another path of _write)
+    pre = []
+    for _ in range(r.choice([0, 0, 1, 2])):
+        si, di = r.randrange(n), r.randrange(n)
+        if si != di:
+            ops += [("select", si), ("nwrite", {"to": addrs[di], "type": r.choice([5, 70, 100, 190]), "id": r.randrange(65536),
+                                                "res": 0, "msg": b"pre"}, 0o70), ("air",)]
+            pre.append((si, di))
+    if pre:
+        ops += D.rounds(n, 4)
+        ops += D.drain(n, ["network"] * n, k=4)
     casts = []
-    for _ in range(r.randrange(1, 3)):
+    hoard = r.random() < 0.25   # relays do not read their own queue: it fills up
+    for _ in range(r.randrange(1, 3) if not hoard else r.randrange(7, 10)):
         si = r.choice([i for i in range(n) if amc[i]] or [0])
         lvl = r.choice([None, 0, 1, 2, 3, 4])
         ln = r.choice([0, 1, 24, 25, 49, 72])
@@ -58,14 +71,16 @@ def gen_case(r):
         casts.append(m)
         ops += [("select", si), ("multicast", m["msg"], m["type"], lvl), ("air",)]
         ops += D.rounds(n, 3)
-        ops += D.drain(n, ["network"] * n, k=4)
-    return specs, ops, casts, relay, amc
+        ops += D.drain(n, ["routing" if (hoard and relay[j]) else "network" for j in range(n)], k=4)
+    if hoard:
+        ops += D.drain(n, ["network"] * n, k=8)
+    return specs, ops, casts, relay, amc, hoard
 
 
 class Checker(D.DeliveryChecker):
-    def __init__(self, specs, casts, pa, relay, amc):
+    def __init__(self, specs, casts, pa, relay, amc, hoard=False):
         super().__init__(specs, casts, pa)
-        self.relay, self.amc = relay, amc
+        self.relay, self.amc, self.hoard = relay, amc, hoard
 
     def finish(self):
         addrs = [a for (_i, _k, a) in self.specs]
@@ -92,8 +107,13 @@ class Checker(D.DeliveryChecker):
                         if self.relay[i] and 1 <= L <= 3:
                             frontier.append((L + 1, i))
         for i in range(len(addrs)):
-            h = [(f["frm"], f["type"], f["msg"]) for f in got[i]]
+            h = [(f["frm"], f["type"], f["msg"]) for f in got[i] if f["msg"] != b"pre"]
             w = want[i]
+            if self.hoard and self.relay[i]:
+                # a relay that never reads keeps at most max_queue_size frames for itself (that is the queue's
+                # contract, C12); what it owes the next level is checked at the next level
+                if len(h) <= 6 and all(x in w for x in h):
+                    continue
             if sorted(h) != sorted(w):
                 missing = [x for x in w if x not in h]
                 extra = [x for x in h if x not in w]
@@ -106,6 +126,8 @@ class Checker(D.DeliveryChecker):
             h = S.parse_hdr(e["data"])
             if h and h["to"] == 0o100 and e["attempts"] != 1:
                 return ("C14/multicast-waited-for-acknowledgement", "%d attempts" % e["attempts"])
+            if h and h["to"] == 0o100 and e["acked_by"]:
+                return ("C14/receiver-acknowledged-multicast", "radios %s acknowledged a multicast frame" % e["acked_by"])
         return None
 
 
@@ -117,8 +139,8 @@ def run(rep, model, tier, seed):
                 "update() in rounds and all queues are drained; non-trivial = at least one expected receiver; distinct = distinct case")
     n = 200 if tier == "quick" else 4000
     for _ in range(n):
-        specs, ops, casts, relay, amc = gen_case(r)
-        chk = Checker(specs, casts, pa, relay, amc)
+        specs, ops, casts, relay, amc, hoard = gen_case(r)
+        chk = Checker(specs, casts, pa, relay, amc, hoard)
         v = NO.check_case(rep, model, [True] * len(specs), specs, ops, chk, "multicast")
         if v is None:
             fv = chk.finish()
